@@ -32,6 +32,8 @@ ELEMS = ['ElemNR', 'ElemTR', 'ElemTC']
 CFGS = {
     # name: (driver, std, defs)
     'main17': ('inst_main.cpp', 'c++17', ['-DAMC_NONSTD_FEATURES', '-DNDEBUG']),
+    'main14dbg': ('inst_main.cpp', 'c++14', []),                 # C++14, standard API only, assertions enabled
+    'main20': ('inst_main.cpp', 'c++20', ['-DAMC_NONSTD_FEATURES', '-DNDEBUG']),
     'sets17': ('inst_sets.cpp', 'c++17', ['-DAMC_NONSTD_FEATURES', '-DNDEBUG']),
 }
 
@@ -171,6 +173,7 @@ def splice(lowered_text, specs, cnames, subst):
     out_lines = []
     clause_map = {}
     ordinals = {}       # (fn, 'ensures'|'requires', k) -> clause
+    fnprops = {}
     fn = None
     want = set(cnames)
     found = set()
@@ -216,25 +219,26 @@ def splice(lowered_text, specs, cnames, subst):
             continue
         m = re.match(r'^/\*@LOOP (\d+)@\*/$', line)
         if m:
-            if fn in want:
-                spec, mm = find_spec(specs, fn)
-                body = spec.loops.get(int(m.group(1)))
-                if body is None:
-                    out_lines.append('')      # loop without contract: unwinding assertion will flag it
-                else:
-                    for text in body:
-                        for k, v in subst.items():
-                            text = text.replace(k, v)
-                        out_lines.append(text)
-                        clause_map[len(out_lines)] = (fn, spec.props, 'loop contract', text)
+            # loop contracts are written relative to the loop entry (__CPROVER_loop_entry), hence valid in every calling
+            # context: they are spliced into every function of the unit that has them, target or inlined callee
+            spec, mm = find_spec(specs, fn) if fn else (None, None)
+            body = spec.loops.get(int(m.group(1))) if spec is not None else None
+            if body is None:
+                out_lines.append('')      # loop without contract: the unwinding assertion will flag it (undecided)
             else:
-                out_lines.append('')
+                for text in body:
+                    for k, v in subst.items():
+                        text = text.replace(k, v)
+                    out_lines.append(text)
+                    clause_map[len(out_lines)] = (fn, spec.props, 'loop contract', text)
+                fnprops[fn] = spec.props
             continue
         out_lines.append(line)
     missing = want - found
     if missing:
         raise Infra('functions not present in the lowered code (renamed or no longer instantiated): %s' % sorted(missing))
     clause_map['ordinals'] = ordinals
+    clause_map['fnprops'] = fnprops
     return '\n'.join(out_lines), clause_map
 
 # ---------------------------------------------------------------------------------------------------------- units
@@ -258,6 +262,12 @@ def build_unit_text(unit, xdir, specs, report):
     lowered = open(os.path.join(xdir, 'lowered.c')).read()
     target = unit['target']
     fns = [target] + list(unit.get('replace', []))
+    extra_src = ''
+    if unit.get('extra_source'):
+        # a lemma / glue function written in /verif (NOT repository code): listed as such in the evidence
+        extra_src = open(os.path.join(VERIF, unit['extra_source'])).read()
+        report = dict(report); report['lowered'] = dict(report['lowered'])
+        report['lowered'][target] = {'callees': list(unit.get('extra_reach', [])), 'l0': [], 'proto': unit['proto']}
     for fn in fns:
         if fn not in report['lowered']:
             why = report['failed'].get(fn, 'not instantiated / renamed')
@@ -293,7 +303,7 @@ def build_unit_text(unit, xdir, specs, report):
             continue
         if not skipping:
             kept.append(line)
-    lowered = '\n'.join(kept)
+    lowered = '\n'.join(kept) + '\n' + extra_src
     text, cmap = splice(lowered, specs, fns, subst)
     proto = report['lowered'][target]['proto']
     ret, name, ps = proto_params(proto)
@@ -309,11 +319,12 @@ def build_unit_text(unit, xdir, specs, report):
     head.append('#ifndef CASE_PRED\n#define CASE_PRED 1\n#endif')
     head.append('#include "l0.h"')
     head.append('#include "inv.h"')
-    head.append('uint64_t g_N, g_N2; struct vsnap pre_self, pre_o; struct gsnap pre_g; _Bool g_alias; uint64_t g_src, g_pos, g_pos2, g_cnt;')
+    head.append('uint64_t g_N, g_N2; struct vsnap pre_self, pre_o; struct gsnap pre_g; _Bool g_alias; uint64_t g_src, g_pos, g_pos2, g_cnt; E *pre_p1, *pre_p2;')
     nhead = sum(h.count('\n') + 1 for h in head)
     body = '\n'.join(head) + '\n' + text + '\n#include "l0_globals.c"\n' + 'void harness(void) {\n%s\n  l0_havoc();\n  %s\n}\n' % (decls, call)
-    cmap2 = {ln + nhead: v for ln, v in cmap.items() if ln != 'ordinals'}
+    cmap2 = {ln + nhead: v for ln, v in cmap.items() if ln not in ('ordinals', 'fnprops')}
     cmap2['ordinals'] = cmap['ordinals']
+    cmap2['fnprops'] = cmap['fnprops']
     cflags = ['-DESZ=%d' % facts['sizeof'], '-DCAT_TC=%d' % facts['trivially_copyable'], '-DCAT_TR=%d' % facts['trivially_relocatable'],
               '-DCAT_NOTHROW_MOVE=%d' % (1 if facts['nothrow_move_construct'] and facts['nothrow_move_assign'] else 0)]
     return body, cmap2, cflags
@@ -382,11 +393,14 @@ def run_unit(unit, xdir, specs, report, variant='main', extra_defs=(), log=print
         tags = re.match(r'^((?:C\d\d ?)+):', desc)
         if tags:
             o['tags'] = tags.group(1).split()
-        elif 'ensures clause' in desc or 'requires clause' in desc or 'loop invariant' in desc or 'decreases' in desc:
+        elif 'ensures clause' in desc or 'requires clause' in desc or 'loop invariant' in desc or 'decreases' in desc or '.loop_' in r['property']:
             c = None
             mo = re.match(r'^(\w+)\.(postcondition|precondition)\.(\d+)$', r['property'])
             if mo:
                 c = cmap['ordinals'].get((mo.group(1), 'ensures' if mo.group(2) == 'postcondition' else 'requires', int(mo.group(3))))
+            ml = re.match(r'^(\w+)\.loop_', r['property'])
+            if ml and ml.group(1) in cmap['fnprops']:
+                c = (ml.group(1), cmap['fnprops'][ml.group(1)], 'loop contract: ' + desc[:60], '')
             if c is None:
                 c = cmap.get(line + 1) or cmap.get(line)
             if c:
